@@ -201,6 +201,7 @@ def jobs_for(tier):
     add(S34, even_cuts(S34, 2, offsets=[[5]]))      # mid-row boundary
     add(S34, even_cuts(S34, 2, offsets=[[4]]))      # row-aligned boundary
     add(S34, even_cuts(S34, 3, offsets=[[1, 11]]))  # single element + mid-row
+    add(S34, even_cuts(S34, 3, offsets=[[2, 10]]), graft=None, fixed=dict(mom=0, wd=0))  # a whole number of rows long but starting mid-row
     add([(2, 3), (4,)], even_cuts([(2, 3), (4,)], 2, offsets=[[6], [2]]), graft="adam")  # an empty shard of parameter 0 on rank 1
     add([(2, 2, 3)], even_cuts([(2, 2, 3)], 2, offsets=[[5]]), graft=None, fixed=dict(mom=0))
     add([(2, 3), (3,)], even_cuts([(2, 3), (3,)], 2, offsets=[[4], [1]]), presence="symbolic", graft="sgd", fixed=dict(mom=0, wd=0))
@@ -216,9 +217,28 @@ def jobs_for(tier):
     # HSDP with a gradient that comes and goes for a block owned by ONE replica rank while every rank keeps other gradients
     add([(2, 4), (3,), (2,)], even_cuts([(2, 4), (3,), (2,)], 1), hsdp=dict(replicate=2, group=2), presence="symbolic", presence_params=[2], T=3, graft=None,
         fixed=dict(mom=0, wd=0, b1=0), merge=False)
+    # num_trainers_per_group a proper divisor of the replicate size: several distribution groups inside one replicate group
+    add([(2, 4), (3,)], even_cuts([(2, 4), (3,)], 1), hsdp=dict(replicate=2, group=1), graft=None, fixed=dict(mom=0, wd=0))
     if tier == "thorough":
+        add([(2, 4), (3,), (2,)], even_cuts([(2, 4), (3,), (2,)], 1), hsdp=dict(replicate=4, group=2), graft="sgd", fixed=dict(mom=0))
         for off in range(1, 12):
             add(S34, even_cuts(S34, 2, offsets=[[off]]), graft=None, fixed=dict(mom=0, wd=0))
+        for a_ in range(0, 12):
+            for b_ in range(a_ + 1, 13):
+                if (b_ - a_) % 4 == 0 and a_ % 4:  # every mid-row start with a length that is a multiple of the row length
+                    add(S34, even_cuts(S34, 3, offsets=[[a_, b_]]), graft=None, fixed=dict(mom=0, wd=0))
+        add([(2, 3, 2)], even_cuts([(2, 3, 2)], 3, offsets=[[1, 7]]), graft=None, fixed=dict(mom=0, wd=0))  # length = one outer slice, unaligned start
+        # every three-way cut 0 <= a <= b <= numel (empty shards included) of an order-2, two order-3 and an order-4 shape; grafting configurations in rotation
+        rot = [dict(graft=None, fixed=dict(mom=0, wd=0)), dict(graft="sgd", fixed=dict(mom=0)), dict(graft="adagrad", fixed=dict(mom=0, wd=0)), dict(graft="adam", fixed=dict(wd=0))]
+        k = 0
+        for shp in ((3, 4), (2, 2, 3), (2, 3, 2), (2, 1, 2, 2)):
+            N = prod(shp)
+            for a_ in range(0, N + 1):
+                for b_ in range(a_, N + 1):
+                    # a second, one-element-per-rank parameter keeps every rank busy (a rank without any parameter is rejected by design),
+                    # so empty shards of the first parameter are covered as well
+                    add([shp, (3,)], even_cuts([shp, (3,)], 3, offsets=[[a_, b_], [1, 2]]), T=1 if k % 3 else 2, **rot[k % 4])
+                    k += 1
         add([(2, 2, 3)], even_cuts([(2, 2, 3)], 3, offsets=[[2, 9]]), graft="adam")
         add([(2, 1, 2, 2)], even_cuts([(2, 1, 2, 2)], 2, offsets=[[3]]), graft="rmsprop", fixed=dict(mom=0))
         add([(4, 3)], even_cuts([(4, 3)], 4, offsets=[[2, 6, 7]]), graft=None, fixed=dict(mom=0, wd=0))
